@@ -702,7 +702,8 @@ def _conc(k):
     return k
 
 
-ABSTRACT = {'nonlinear': False, 'digits': False, 'algebra': False, 'floats': False}
+ABSTRACT = {'nonlinear': False, 'digits': False, 'algebra': False, 'floats': False, 'xor_uf': False}
+_XOR8 = z3.Function('xor8', z3.IntSort(), z3.IntSort(), z3.IntSort())
 
 
 def _abstract_result(op, a, b):
@@ -893,8 +894,32 @@ def _bitop_const(op, a, m):
     return mk_int(t + const if const else t, n)
 
 
+def _xor_uf(a, b):
+    """byte xor as an uninterpreted function with the facts equality reasoning needs (no bit-blasting):
+    range, xor8(a,b) = 0 <=> a = b, and cancellation against every earlier application on this path that shares an
+    operand position: a = a' -> (xor8(a,b) = xor8(a',b') <=> b = b').  Exact for deciding equalities between xor
+    results and zero / each other; the numeric value of a non-zero result is otherwise left open (sound
+    over-approximation)."""
+    e = eng()
+    at, bt = zi(a), zi(b)
+    r = _XOR8(at, bt)
+    apps = e.run_cache.setdefault('xor_apps', [])
+    cons = [r >= 0, r <= 255, (r == 0) == (at == bt), _XOR8(bt, at) == r]
+    for (a2, b2, r2) in (apps[-64:] if ABSTRACT['xor_uf'] == 'cancel' else ()):
+        cons.append(z3.Implies(at == a2, (r == r2) == (bt == b2)))
+        cons.append(z3.Implies(bt == b2, (r == r2) == (at == a2)))
+        cons.append(z3.Implies(at == b2, (r == r2) == (bt == a2)))
+        cons.append(z3.Implies(bt == a2, (r == r2) == (at == b2)))
+    e.add(z3.And(*cons), simplified=True)
+    apps.append((at, bt, r))
+    return SymInt(r, 8)
+
+
 def _bitop_general(op, a, b):
     wa, wb = _width(a), _width(b)
+    if op == 'xor' and ABSTRACT['xor_uf'] and wa is not None and wb is not None and wa <= 8 and wb <= 8 \
+            and isinstance(a, SymInt) and isinstance(b, SymInt):
+        return _xor_uf(a, b)
     if op == 'and':
         # result fits in the narrower non-negative operand
         cands = [w for w in (wa, wb) if w is not None]
